@@ -7,7 +7,24 @@ import os
 import sys
 
 
+def _own_group():
+    """workers and solver children die with this process when it is timed out"""
+    import signal
+    try:
+        os.setpgrp()
+    except OSError:
+        return
+
+    def bye(signum, frame):
+        try:
+            os.killpg(os.getpgid(0), signal.SIGKILL)
+        finally:
+            os._exit(124)
+    signal.signal(signal.SIGTERM, bye)
+
+
 def main():
+    _own_group()
     ap = argparse.ArgumentParser()
     ap.add_argument("pid")
     ap.add_argument("--tier", default=os.environ.get("VERIF_TIER", "quick"), choices=["quick", "thorough"])
